@@ -1,6 +1,6 @@
 """C07 -- conjugate computes the complex conjugate (structural clauses)."""
 from ..core import Ctx, Ob, PropSpec
-from ..rules import r2, extra, r7i
+from ..rules import r2, extra, r7i, r4r
 
 
 def run(ctx: Ctx) -> list[Ob]:
@@ -13,6 +13,7 @@ def run(ctx: Ctx) -> list[Ob]:
     obs += r2.r2a_functional(ctx, ["conjugate"])
     obs += extra.conjugate_dispatch(ctx)
     obs += r7i.rewiring_order(ctx, ['conjugate'])
+    obs += r4r.operator_rule_shapes(ctx, {'CONJUGATION'})
     return obs
 
 
@@ -24,9 +25,9 @@ SPEC = PropSpec(
         "branches) as the same-named keyword fed by the same-named attribute of the operand (R2c); every carried parameter goes "
         "through ConjugateParameter unless the layer compiles to an exponential-family layer with real parameters (R2d, derived); "
         "operand parameters are touched only through .ref() (R2a) and no fresh tensor is created (R2b); functional.conjugate "
-        "passes product layers through and dispatches every other layer kind to a registry rule. R7i: every comprehension over <circuit>.layer_inputs(<layer>) that re-wires a copied layer in this operator is an order-preserving total map (no `if` filter, not concatenated, not sorted / reversed / made a set): product layers and sum weights are positional."
+        "passes product layers through and dispatches every other layer kind to a registry rule. R7i: every comprehension over <circuit>.layer_inputs(<layer>) that re-wires a copied layer in this operator is an order-preserving total map (no `if` filter, not concatenated, not sorted / reversed / made a set): product layers and sum weights are positional. R4r (symbolic shape interpretation of the operator rules, nothing executed): each conjugation layer rule, applied to abstract operand layers built by interpreting the symbolic layer constructors on symbolic sizes (every parameterisation: probs / logits, optional log-partition, arity 1..3), composes parameter nodes only with operands of the shapes the nodes were built for, hands the resulting layer parameters of exactly the shape its constructor validates (for all sizes, not only when two sizes coincide) and returns a layer with Ko output units."
     ),
     not_decided="that torch.conj is a conjugation; involution and equality of integrals (they follow from the carried clauses, not checked numerically).",
     run=run,
-    floors={"R7i": 2, "R2c": 8, "R2d": 5},
+    floors={"R4r": 10, "R7i": 2, "R2c": 8, "R2d": 5},
 )
